@@ -11,7 +11,6 @@ CLAUSES = {
     7: "the report itself carries an original sender: a failing report could trigger another report",
     8: "hand-over to the bounce pipeline: wrong call sequence for the injected failure (missing or spurious Abort)",
     105: "no failure report at all when the last error of a failed recipient carries no enhanced status code (x.0.0 unset: a plain go-smtp error, or a next-hop reply without enhanced code): RecipientInfo.WriteTo refuses ('Status is required') and emitDSN drops the whole report",
-    106: "no failure report when a failed recipient cannot be represented in the message's address type (non-ASCII local part in a non-SMTPUTF8 message)",
 }
 TRUSTED = [
     "Coq 8.16.1 kernel (coqc); vm_compute",
@@ -27,7 +26,8 @@ def run(ctx):
     if not ok:
         return
     core.check_theorems(ctx, "theories/Props/C18.v", "Props.C18")
-    ov = core.write_overlay(ctx, {"internal/target/queue/zz_verif_c18_test.go": "harness/c18/c18_test.go"},
+    ov = core.write_overlay(ctx, {"internal/target/queue/zz_verif_c18_test.go": "harness/c18/c18_test.go",
+                                  "internal/target/queue/zz_verif_export.go": "harness/queue/export.go"},
                             {"internal/target/queue": "queue"})
     n = 500 if ctx.tier == "quick" else 15000
     core.generic_corr(ctx, overlay=ov, pkg="internal/target/queue", run="TestVerif_C18", n=n,
